@@ -89,6 +89,7 @@ type blkRun struct {
 	Timing   string     `json:"timing"` // "" or why the real-time staging of this schedule was not valid (retried)
 	Attempts int        `json:"attempts"`
 	Skipped  int        `json:"skipped"`
+	Eos      string     `json:"eos_with_data"` // C07 observation: end-of-stream reported over delivered, unread data
 }
 
 type blkScenario struct {
@@ -194,6 +195,7 @@ const (
 	blkLblClear = "pendingData.clear:lock"
 	blkLblPut   = "queue.put:lock"
 	blkLblAdd   = "pendingData.add:lock"
+	blkLblSel   = "Stream.readMore:select" // in front of every select of readMore (instr rule preSelect)
 )
 
 // blkSpawn creates the goroutine; it runs fn only after th.start() (called by advance once the gates are armed).
@@ -438,6 +440,7 @@ type blkReadWorld struct {
 	near      bool      // the schedule lets this deadline pass
 	dlTick    int
 	accounted bool
+	eosDetail string
 	timingBad string
 	seenGate  *vsGateT
 	lastRes   string
@@ -483,16 +486,31 @@ func (w *blkReadWorld) pos() string {
 		if w.R.kind == blkLblMove {
 			return "mv"
 		}
+		if w.R.kind == blkLblSel {
+			return "ps"
+		}
 		return "st"
 	}
-	if b, _ := w.R.blocked(); b {
-		return "sel"
+	// neither parked nor finished: blocked in the select, or in flight (e.g. the timer has just fired) - let it settle
+	t0 := time.Now()
+	for {
+		if b, _ := w.R.blocked(); b {
+			return "sel"
+		}
+		if w.R.finished() {
+			w.syncR()
+			return "idle"
+		}
+		if time.Since(t0) > 2*time.Second {
+			return "run"
+		}
+		time.Sleep(200 * time.Microsecond)
 	}
-	return "run"
 }
 
 func (w *blkReadWorld) obs() blkObs {
-	o := blkObs{"pos": w.pos(), "res": w.lastRes, "rd": w.rd, "tok": len(w.bs.recvNotifyCh),
+	pos := w.pos()
+	o := blkObs{"pos": pos, "res": w.lastRes, "rd": w.rd, "tok": len(w.bs.recvNotifyCh),
 		"cls": blkClosed(w.bs.closeNotifyCh), "st": blkStateName(w.bs.getStreamState()), "sess": w.sess,
 		"dpc": w.dpc, "cpc": w.cpc, "mv": w.mvHits, "sth": w.stHits, "now": w.now}
 	o["pend"] = w.pendBytes()
@@ -560,6 +578,10 @@ func (w *blkReadWorld) checkReturn() {
 		}
 		if w.lastRes == "eos" && w.pendBytes()+w.bs.recvBuf.len >= w.sc.Need {
 			w.res.EosWithData++
+			b, _ := json.Marshal(w.sc.Steps[:w.at+1])
+			w.eosDetail = fmt.Sprintf("ReadBytes(%d) returned ErrEndOfStream although %d bytes flushed by the peer before it closed had been "+
+				"delivered (pendingData %d + read buffer %d) and were unread; steps executed %s", w.sc.Need,
+				w.pendBytes()+w.bs.recvBuf.len, w.pendBytes(), w.bs.recvBuf.len, b)
 			if w.res.EosWitness == "" {
 				b, _ := json.Marshal(w.sc.Steps[:w.at+1])
 				w.res.EosWitness = fmt.Sprintf("%s: ReadBytes(%d) = end of stream with %d bytes delivered and unread; steps %s",
@@ -665,7 +687,7 @@ func (w *blkReadWorld) syncR() {
 		w.seenGate = w.R.gate
 		if w.R.kind == blkLblMove {
 			w.mvHits++
-		} else {
+		} else if w.R.kind == blkLblState {
 			w.stHits++
 		}
 	}
@@ -680,6 +702,21 @@ func (w *blkReadWorld) syncR() {
 	}
 }
 
+// advanceR lets the reader run to its next scheduling point: pendingData.moveTo, Stream.getStreamState or the main
+// select of readMore. The select inside the deferred timer drain carries the same label prefix: a reader parked there
+// (its stack is inside the deferred closure readMore.func1) is simply let through.
+func (w *blkReadWorld) advanceR() string {
+	for k := 0; ; k++ {
+		r := w.advance(w.R, []string{blkLblMove, blkLblState, blkLblSel})
+		if r == "gate:"+blkLblSel && k < 4 {
+			if _, frames := blkStatus(atomic.LoadInt64(&w.R.gid)); strings.Contains(frames, "readMore.func") {
+				continue
+			}
+		}
+		return r
+	}
+}
+
 func (w *blkReadWorld) env(name string, labels []string, fn func()) (*blkThr, string) {
 	th := blkSpawn(name, "", fn)
 	r := w.advance(th, labels, w.R)
@@ -691,7 +728,6 @@ func (w *blkReadWorld) step(i int, s blkStep) (skipped bool, timing string) {
 	if w.near && w.now < w.dlTick && w.R != nil && !w.R.finished() && time.Until(w.deadline) < 3*time.Millisecond {
 		return false, fmt.Sprintf("real deadline reached before step %d", i)
 	}
-	rLabels := []string{blkLblMove, blkLblState}
 	switch {
 	case s.A == "RStart":
 		if w.R != nil && !w.R.finished() {
@@ -735,12 +771,15 @@ func (w *blkReadWorld) step(i int, s blkStep) (skipped bool, timing string) {
 				w.bs.BufferReader().ReleasePreviousRead()
 			}
 		})
-		w.advance(w.R, rLabels)
+		w.advanceR()
+	case strings.HasPrefix(s.A, "R_sel"):
+		// taking an arm is part of the stretch that leaves the select gate (R_enter) or of the wake-up by an event
+		return true, ""
 	case strings.HasPrefix(s.A, "R_"):
 		if w.R == nil || w.R.finished() || w.R.gate == nil {
 			return true, "" // returned already, or blocked in the select: it moves when an event releases it
 		}
-		w.advance(w.R, rLabels)
+		w.advanceR()
 	case s.A == "ArrBegin":
 		if w.dpc != "idle" || w.peerCl {
 			return true, ""
@@ -890,8 +929,8 @@ func blkRunRead(job *blkJob, sc *blkSched, res *blkResult) blkRun {
 			w.syncR()
 			if wasBlocked && !strings.HasPrefix(s.A, "R") {
 				// eager reader: woken by this event, it runs on until it blocks again or returns
-				for k := 0; k < 8 && w.R.gate != nil && w.viol == nil; k++ {
-					w.advance(w.R, []string{blkLblMove, blkLblState})
+				for k := 0; k < 12 && w.R.gate != nil && w.viol == nil; k++ {
+					w.advanceR()
 					w.syncR()
 				}
 			}
@@ -908,8 +947,8 @@ func blkRunRead(job *blkJob, sc *blkSched, res *blkResult) blkRun {
 		}
 		if w.viol == nil && w.inc == "" && run.Timing == "" && w.R != nil && w.R.gate != nil {
 			// let a reader parked at a gate run on: it must return or block legitimately
-			for k := 0; k < 8 && w.R.gate != nil; k++ {
-				w.advance(w.R, []string{blkLblMove, blkLblState})
+			for k := 0; k < 12 && w.R.gate != nil; k++ {
+				w.advanceR()
 				w.syncR()
 			}
 			w.checkBlocked()
@@ -917,6 +956,7 @@ func blkRunRead(job *blkJob, sc *blkSched, res *blkResult) blkRun {
 			run.Events = append(run.Events, blkEvent{A: "R_run", Obs: w.obs()})
 		}
 		w.teardown()
+		run.Eos = w.eosDetail
 		if w.viol != nil {
 			res.Violations = append(res.Violations, *w.viol)
 		}
